@@ -141,8 +141,10 @@ CLAIMED['C05'] = dict(
     text='Partial. Contract proof of the layout-converting constructors of homogeneous_color_base (N = 3, 4; mem-initialiser lists cut from '
          'color_base.hpp, mapping_transform values bound by g++ on the real headers, memory index of each colour name measured on real pixel objects): '
          'after dst(src) every named colour of dst equals that of src, for all 4 ordered pairs of rgb/bgr and all 16 ordered pairs of '
-         'rgba/bgra/argb/abgr, over fully symbolic channel values; semantic_at_c<K> == at_c<mapping[K]> and the mapping is a permutation.',
-    note=TRUST + 'The recursive static_* algorithms, proxy assignment/equality plumbing and planar references are template recursion with no arithmetic and are not '
+         'rgba/bgra/argb/abgr, over fully symbolic channel values; semantic_at_c<K> == at_c<mapping[K]> and the mapping is a permutation. Also: both reference forms (const&, l-value) of the converting constructors '
+         'for N = 2..5 over user-style layouts of devicen_t<N> (the K-th colour of dst is the K-th colour of src, memory positions read off channel_mapping_t), the 30 at(integral_constant<int,K>) accessors, and the '
+         'planar channel-pointer / channel-reference constructors (pointer / reference K addresses the K-th colour of the pixel, shifted by the byte offset). Packed pixels: complete native enumeration of 2^16 bit fields (stand-in).',
+    note=TRUST + 'The recursive static_* algorithms and proxy assignment/equality plumbing are template recursion with no arithmetic and are not '
          'extracted; packed / bit-aligned channel positions are under C08.',
     technique='function contracts (CBMC DFCC) on the extracted mem-initialiser lists with compile-time constants bound by the real compiler',
     design='4/C05')
@@ -150,8 +152,8 @@ CLAIMED['C05'] = dict(
 CLAIMED['C04'] = dict(
     text='Partial. Loop-contract proof (unbounded, n <= 2^40) of the three copier_n specialisations behind copy_pixels / std::copy on views that are not '
          '1-D traversable: every pixel g of [0,n) is copied exactly once, from source pixel g (the per-pixel loop in row-major order); every '
-         'chunk handed to copy_n lies inside ONE row of each 2-D side, so row padding and neighbouring pixels are never written; nothing beyond n pixels is written. for_each / generate / fill / transform_pixels and the std::fill overload visit every pixel exactly once (1-D fast path only for traversable views); planar fill_aux pairs planes with the value\'s channels by colour.',
-    note=TRUST + 'fill/equal/for_each/generate/transform pixel algorithms are not built. iterator += k is the C03 advance contract; copy_n on raw iterators is assumed to copy k consecutive pixels; '
+         'chunk handed to copy_n lies inside ONE row of each 2-D side, so row padding and neighbouring pixels are never written; nothing beyond n pixels is written. for_each / generate / fill / transform_pixels and the std::fill overload visit every pixel exactly once (1-D fast path only for traversable views); planar fill_aux pairs planes with the value\'s channels by colour. copy_with_2d_iterators hands a side over as one raw run only when that side is 1-D traversable; detail::copy_fn, the two std::copy(pixel*) overloads and the planar std::copy overload copy exactly the n pixels (every plane once); the memcmp fast paths of equal_n_fn (pixel<T,L> pointers, planar pointers) are true exactly when all channel bytes agree.',
+    note=TRUST + 'The 2-D iterator forms of equal_n_fn, uninitialized_* and destruct are not built. iterator += k is the C03 advance contract; copy_n on raw iterators is assumed to copy k consecutive pixels; '
          'the 1-D traversability predicate that selects the copier is under contract in C03.',
     technique='function contracts with loop invariants / decreases clauses and a ghost target pixel, enforced by CBMC DFCC on extracted real bodies',
     design='4/C04')
